@@ -155,17 +155,21 @@ theorem stage_meets_logql_parser (E : Env V) (k : ParserKind) (es : List (Entry 
     (hp : ∀ e ∈ es, e.err = none) : stageFlat E (.parser k) es = parserStage E k es := parser_meets_all E k es hp
 
 /-- **`| json n₁="p₁", n₂="p₂", …`, general case**: any number of parameters, names that repeat, names of
-    existing stream labels, paths that are prefixes of each other, array indexes, keys occurring twice, documents
-    that are malformed anywhere. What `jsonPathProcessor` leaves in the label map is `jsonPathLabels`: go through
-    the scalars of the document in document order up to the point where the decoder fails; a scalar whose address
-    (keys and indexes from the root) is the path of a parameter sets that parameter's label to its value,
-    overwriting what was there (for several such parameters: in parameter order). Hence a name used by several
-    parameters ends with the value that comes last *in the document* (not in the parameter list), a parameter
-    named like a stream label replaces it, and labels no parameter reaches stay as they were. -/
+    existing stream labels, paths that are prefixes of each other, array indexes, keys occurring twice, lines that are
+    no JSON document. What `jsonWithParams` leaves in the label map is `jsonPathLabels`: **every named label is set**.
+    On a line that is one readable JSON document, go through the values of the document in document order (an object
+    or an array before its members); a value whose address (keys and indexes from the root) is the path of a parameter
+    gives that parameter's label its text — the content of a string, the source text of a number / true / false /
+    null, the JSON text of an object or an array. Hence a name used by several parameters ends with the value that
+    comes last *in the document* (not in the parameter list). A parameter no value was found for sets its label to the
+    empty string, also when a stream label has that name; on a line that is not one JSON document (`jx.Valid` says no,
+    e.g. text after the document) every named label becomes the empty string. This is what the ClickHouse planner's
+    `mapUpdate(labels, mapFromArrays(names, [JSONExtract…]))` does for the same stage (`engines_agree_jsonParams`). -/
 theorem stage_meets_logql_jsonParams (E : Env V) (ps : List Ahead) (es : List (Entry V))
     (hp : ∀ e ∈ es, e.err = none) :
     stageFlat E (.parser (.jsonParams ps)) es =
-      es.map (fun e => relabel E e (jsonPathLabels ps (E.jsonDecode e.msg) e.labels)) :=
+      es.map (fun e => relabel E e
+        (jsonPathLabels (E.jsonValid e.msg && !hasBad (E.jsonDecode e.msg)) ps (E.jsonDecode e.msg) e.labels)) :=
   parser_meets_all E (.jsonParams ps) es hp
 
 /-- **`| logfmt n₁="k₁", …`**: the map `ParserPlanner.Process` fills from the parameters (first path segment ↦
@@ -178,29 +182,36 @@ theorem stage_meets_logql_logfmtParams (E : Env V) (ps : List Ahead) (es : List 
       es.map (fun e => relabel E e (logfmtParamLabels ps (E.logfmtDecode e.msg) e.labels)) :=
   parser_meets_all E (.logfmtParams ps) es hp
 
-/-- one parameter, a document read to the end: the general definition is the reading by lookup — the label is the
-    scalar the path leads to (for a key that occurs twice the last occurrence leading to a scalar), other labels
-    untouched. -/
-theorem jsonParam_single_is_lookup (n : Bytes) (p : List PathSeg) (doc : JVal) (l : Labels) (hb : hasBad doc = false) :
-    jsonPathLabels [(n, p)] doc l = (match lookupPath doc p with | some v => l.set n v | none => l) := by
-  rw [← jsonParams_meets, jsonParams_single n p doc l hb]
-  simp only [jsonParamLabels, List.foldl_cons, List.foldl_nil]
-  cases lookupPath doc p <;> rfl
+/-- one parameter: the general definition is the reading by lookup — the label is the text the path leads to (for a
+    key that occurs twice the last occurrence that leads somewhere), "" when it leads nowhere or the line is not a
+    readable document; other labels untouched. -/
+theorem jsonParam_single_is_lookup (readable : Bool) (n : Bytes) (p : List PathSeg) (doc : JVal) (l : Labels) :
+    jsonPathLabels readable [(n, p)] doc l = l.set n (if readable then (lookupPath doc p).getD [] else []) := by
+  rw [jsonParams_distinct_lookup readable [(n, p)] (by simp) doc l]
+  rfl
 
-/-- **parameters with pairwise different names, a document read to the end**: the general definition coincides with
-    the reading by lookup — every parameter's label is the scalar `lookupPath` finds for its path, whatever the
-    order of the parameters and of the members of the document (`jsonParamLabels` goes through the parameters in
-    order; the engine goes through the document). -/
-theorem jsonParams_distinct_is_lookup (ps : List Ahead) (hd : (ps.map (·.1)).Nodup) (doc : JVal) (hb : hasBad doc = false)
-    (l : Labels) : jsonPathLabels ps doc l = jsonParamLabels ps doc l := jsonParams_distinct_lookup ps hd doc hb l
+/-- **parameters with pairwise different names**: the general definition coincides with the reading by lookup —
+    every parameter's label is the text `lookupPath` finds for its path ("" when nothing), whatever the order of the
+    parameters and of the members of the document (`jsonParamLabels` goes through the parameters in order; the engine
+    goes through the document). -/
+theorem jsonParams_distinct_is_lookup (readable : Bool) (ps : List Ahead) (hd : (ps.map (·.1)).Nodup) (doc : JVal)
+    (l : Labels) : jsonPathLabels readable ps doc l = jsonParamLabels readable ps doc l :=
+  jsonParams_distinct_lookup readable ps hd doc l
+
+/-- following a path finds the LAST value of the document (document order, a composite before its members) that has
+    this address: the recursive reading and the document-order reading are the same function -/
+theorem lookup_is_last_value_at_path (n : Bytes) (p : List PathSeg) (doc : JVal) :
+    jsonPathFound [(n, p)] doc = (match lookupPath doc p with | some v => [(n, v)] | none => []) := by
+  rw [jsonPathFound_single]
+  cases lookupPath doc p <;> rfl
 
 /-- the hypothesis "different names" is needed: `p="a", p="b"` on `{"b":"1","a":"2"}` gives `p=2` (the later member of
     the document), the parameter-order reading would give `p=1` -/
 theorem jsonParams_repeated_name_document_order :
-    let doc := JVal.obj (.cons [98] (.str [49]) (.cons [97] (.str [50]) .nil))
+    let doc := JVal.obj [] (.cons [98] (.str [49]) (.cons [97] (.str [50]) .nil))
     let ps : List Ahead := [([112], [.key [97]]), ([112], [.key [98]])]
-    jsonParams ps doc [] = [([112], [50])] ∧ jsonPathLabels ps doc [] = [([112], [50])] ∧
-    jsonParamLabels ps doc [] = [([112], [49])] := by decide
+    jsonParams true ps doc [] = [([112], [50])] ∧ jsonPathLabels true ps doc [] = [([112], [50])] ∧
+    jsonParamLabels true ps doc [] = [([112], [49])] := by decide
 
 /-- which parsers the in-process engine has: `json` and `logfmt`; `regexp`, `pattern`, `unpack` are answered
     `NotSupported` (the switch of `ParserPlanner.Process`, regenerated) -/
@@ -738,9 +749,12 @@ theorem gen_facts :
 /-- the parameter handling of the parser stage as the source has it now — what `paramFields`, `jsonParams`,
     `aheadsFor`, `setAll`, `logfmtFields`, `parserFn` mirror: `logfmtFields` is filled only when there are parameters,
     for every parameter in order, skipping empty paths, only for a leading *string* segment, by map assignment
-    (later wins); `jsonWithParams` makes one ahead per parameter in parameter order; `filterAhead` drops aheads whose
-    path is exhausted and compares the first segment by type and value; a scalar is given to the aheads whose path
-    is exhausted; members nobody asks for are skipped; paths are cut by one segment on the way down; `HandleLogfmt`
+    (later wins); `jsonWithParams` makes one ahead per parameter in parameter order, walks only a line `jx.Valid` accepts,
+    writes what it finds to a map of its own and then assigns `found[label]` ("" when absent) to every named label;
+    `filterAhead` drops aheads whose path is exhausted and compares the first segment by type and value; an object or
+    an array some path ends at is read as a whole (`dec.Raw()`), its text given to the exhausted aheads, the others
+    followed inside it; a scalar is given to the aheads whose path is exhausted; members nobody asks for are skipped;
+    paths are cut by one segment on the way down; `HandleLogfmt`
     consults the map when it is non-nil and ignores unnamed keys; `OnEntry` passes marker entries, keeps the labels
     extracted before a parse error and recomputes the fingerprint in every case. -/
 theorem gen_facts_params :
@@ -753,8 +767,17 @@ theorem gen_facts_params :
     Gen.InternalParams.aheadsRange = "i, path := range p.parameterTypedValues" ∧
     Gen.InternalParams.aheadsBody = ["name := p.ParameterNames[i]", "pa = append(pa, pathAhead{label: name, path: path})"] ∧
     Gen.InternalParams.filterAheadConds = ["len(a.path) == 0", "typeCmp[int](a.path[0], key) || typeCmp[string](a.path[0], key)"] ∧
-    Gen.InternalParams.setConds = ["len(a.path) == 0", "len(a.path) == 0"] ∧
-    Gen.InternalParams.setAssigns = ["(*j.labels)[a.label] = val", "(*j.labels)[a.label] = val"] ∧
+    Gen.InternalParams.jsonParamsConds = ["jx.Valid([]byte(str))", "err != nil"] ∧
+    Gen.InternalParams.jsonParamsFound = ["found := make(map[string]string, len(pa))", "found = nil",
+      "jpp := &jsonPathProcessor{labels: &found}"] ∧
+    Gen.InternalParams.jsonParamsFinalRange = "_, a := range pa" ∧
+    Gen.InternalParams.jsonParamsFinalBody = ["(*labels)[a.label] = found[a.label]"] ∧
+    Gen.InternalParams.processConds = ["next == jx.Object || next == jx.Array", "len(a.path) > 0", "len(deeper) < len(aheads)",
+      "err != nil", "len(a.path) == 0", "len(deeper) == 0", "err != nil", "len(a.path) == 0", "err != nil", "len(a.path) == 0"] ∧
+    Gen.InternalParams.processDeeper = ["deeper = append(deeper, a)", "raw, err := dec.Raw()",
+      "dec, aheads = jx.DecodeBytes(raw), deeper", "raw, err := dec.Raw()"] ∧
+    Gen.InternalParams.setConds = ["len(a.path) > 0", "len(a.path) == 0", "len(a.path) == 0", "len(a.path) == 0"] ∧
+    Gen.InternalParams.setAssigns = ["(*j.labels)[a.label] = raw.String()", "(*j.labels)[a.label] = val", "(*j.labels)[a.label] = val"] ∧
     Gen.InternalParams.processObjectConds = ["len(aheads) == 0", "len(_aheads) == 0"] ∧
     Gen.InternalParams.processArrayConds = ["len(aheads) == 0", "len(_aheads) == 0"] ∧
     Gen.InternalParams.processObjectCut = ["pathAhead{label: a.label, path: a.path[1:]}"] ∧
@@ -765,7 +788,7 @@ theorem gen_facts_params :
     Gen.InternalParams.parserOnEntry = ["if entry.Err != nil { return nil }",
       "labels, err := parser(entry.Message, &entry.Labels)", "if err == nil { entry.Labels = labels }",
       "entry.Fingerprint = fingerprint(entry.Labels)", "return nil"] :=
-  ⟨rfl, rfl, rfl, rfl, rfl, rfl, rfl, rfl, rfl, rfl, rfl, rfl, rfl, rfl, rfl, rfl, rfl⟩
+  ⟨rfl, rfl, rfl, rfl, rfl, rfl, rfl, rfl, rfl, rfl, rfl, rfl, rfl, rfl, rfl, rfl, rfl, rfl, rfl, rfl, rfl, rfl, rfl⟩
 
 /-! ## non-vacuity -/
 section examples
@@ -808,8 +831,9 @@ example : SeriesTableOk ⟨0, 1, 0, false, 1, false, "g", "s", "t", "t"⟩ ⟨[]
 def exEnv : Env Int where
   o := { reMatch := fun _ _ => false, jsonLabels := fun _ => [], isNum := fun _ => false, numCmp := fun _ _ _ => false, lower := id }
   num := intOps
-  jsonDecode m := if m = [1] then .obj (.cons [98] (.raw [49]) (.cons [97] (.raw [50]) .nil))
-                  else .obj (.cons [97] (.raw [50]) (.cons [98] (.raw [49]) .nil))
+  jsonDecode m := if m = [1] then .obj [] (.cons [98] (.raw [49]) (.cons [97] (.raw [50]) .nil))
+                  else .obj [] (.cons [97] (.raw [50]) (.cons [98] (.raw [49]) .nil))
+  jsonValid _ := true
   logfmtDecode _ := []
   tpl _ _ := none
   hash b := b.foldl (fun h c => h * 31 + c.toUInt64) 7
